@@ -71,6 +71,7 @@ Inductive fail_reason : Type :=
 Inductive writer_sel : Type :=
 | WDefault                   (* lua_writer_cls=None: the echo writer *)
 | WMinify                    (* lua.LuaMinifyTokenWriter *)
+| WFormat                    (* lua.LuaFormatterWriter *)
 | WFormatTuple.              (* (lua.LuaFormatterWriter,) - a 1-tuple, see observation O1 *)
 
 Inductive outcome (A : Type) : Type :=
@@ -87,6 +88,9 @@ Variable secnames : list bytes.       (* the tuple of the section loop *)
 Variable ends : list bytes.           (* the .endswith constants of do_build, in source order *)
 Variable prefixes : list bytes.       (* the 'empty_' constants, in source order *)
 Variable eqconsts : list bytes.       (* the constants compared with `section`, in source order *)
+Variable format_attrs : list bytes.   (* args.<attr> read in the --lua-format branch (AttributeError when absent) *)
+Variable minify_attrs : list bytes.   (* args.<attr> read in the --lua-minify branch *)
+Variable format_cls_is_tuple : bool.  (* `lua_writer_cls = lua.LuaFormatterWriter,` (observation O1) *)
 Variable w : world A.
 Variable ns : namespace.
 
@@ -155,13 +159,14 @@ Definition do_build : outcome A :=
         match build_loop empty_source secnames result0 with
         | Stop o => o
         | Continue result =>
+          let has a := match ns_get ns a with Some _ => true | None => false end in
           if truthy (getattr_d ns "lua_format"%bs (VBool false)) then
-            (* lua_writer_cls = lua.LuaFormatterWriter,   and   args.indentwidth etc. read strictly *)
-            match ns_get ns "indentwidth"%bs, ns_get ns "keep_all_names"%bs, ns_get ns "keep_names_from_file"%bs with
-            | Some _, Some _, Some _ => Wrote result WFormatTuple (w_exists w filename)
-            | _, _, _ => Raised AttributeError
-            end
-          else if truthy (getattr_d ns "lua_minify"%bs (VBool false)) then Wrote result WMinify (w_exists w filename)
+            (* lua_writer_cls = lua.LuaFormatterWriter[,]   and   args.indentwidth etc. read strictly *)
+            if forallb has format_attrs
+            then Wrote result (if format_cls_is_tuple then WFormatTuple else WFormat) (w_exists w filename)
+            else Raised AttributeError
+          else if truthy (getattr_d ns "lua_minify"%bs (VBool false)) then
+            if forallb has minify_attrs then Wrote result WMinify (w_exists w filename) else Raised AttributeError
           else Wrote result WDefault (w_exists w filename)
         end
       end
